@@ -41,6 +41,7 @@ RULE = (
 )
 RULE += " A ninth session kind drives the contact fixed point of consistent_initial_conditions (inside System.assemble) into failure - forced, by budget, or by a diverging prox parameter - with continue_with_unconverged on / off: raise or warn, never silent." + " A third of the contact sessions use a prox parameter beyond the contraction range (prox_scaling in [2, 4], legal): the contact fixed point then fails organically as soon as a contact closes, and the same oracle judges the solver's reaction."
 RULE += " Fault F1n (half of the Newton / Rattle / BackwardEuler sessions): a user force law evaluates to NaN from a time or load level on; the reaction oracle applies to the reported failure, and a nonlinear solve that reports success for a non-finite solution followed by a silent return of non-finite rows is a violation."
+RULE += " RATTLE / BackwardEuler sessions with a Newton budget of 1-2 iterations in both Newton variants of RATTLE (organic failure); every nonlinear solve is held to the configured newton_max_iter."
 COMPONENTS = {
     "real": ["all eight solvers", "fsolve", "every fixed-point loop (through the guarded decision hook)", "scipy / scipy_dae back ends (run for real up to the stop time)"],
     "stub": ["tqdm -> SimProgress (step seam)", "warnings / stdout captured (warnings are the observable)"],
@@ -110,6 +111,12 @@ def gen(rng, tier, index):
             plan["organic"] = True
     else:
         plan["stop_frac"] = float(rng.uniform(0.2, 0.8))
+    if name in ("Rattle", "BackwardEuler") and plan["scene_kind"] == "chain" and (index // len(ALL)) % 4 == 3:
+        # legal knobs: a Newton budget of one or two iterations (organic failure of the first nonlinear step) and, for
+        # RATTLE, either of its two Newton variants (chord iteration with a reused factorisation / full Newton)
+        spec["options"]["newton_max_iter"] = 1 + (index // (4 * len(ALL))) % 2
+        spec["options"]["reuse_lu_decomposition"] = bool((index // (8 * len(ALL))) % 2)
+        plan["organic"] = True
     plan["solver"] = spec
     return plan
 
@@ -443,6 +450,20 @@ def execute(plan, out, log):
         raise Discard(f"pilot_raised:{name}:{type(pilot.exc).__name__}")
     r = judge(plan, pilot, out, None)
     reactions.add(("pilot", r))
+    # the configured iteration budget is part of "fails": a nonlinear solve that is still iterating after
+    # newton_max_iter iterations has failed, whatever it reports later
+    budget = 25 if name == "Newton" else (plan.get("solver", {}).get("options", {}).get("newton_max_iter", 20) if name in ("Rattle", "BackwardEuler") else None)
+    if budget is not None and not out["violations"]:
+        over = [i for i in pilot.sim.instances if i[0] == "fsolve" and i[5] - 1 > budget]
+        out["probes"]["newton_budget_checked"] += 1
+        if over:
+            out["violations"].append(
+                violation(
+                    "iteration_budget_ignored",
+                    f"{name}/reuse_lu={plan.get('solver', {}).get('options', {}).get('reuse_lu_decomposition', 'default')}",
+                    f"newton_max_iter={budget}, yet nonlinear solve {over[0][2]} of step {over[0][1]} made {over[0][5] - 1} iterations and went on ({len(over)} such solves; reaction of the run: {r})",
+                )
+            )
     if r != "no_failure":
         out["probes"]["organic_failure_judged"] += 1
         out["faults"]["F2o_organic_fixed_point_failure" if pilot.sim.failed_instances()[0][0] != "fsolve" else "F1o_organic_newton_failure"] += 1
